@@ -90,7 +90,7 @@ def c12_2(cx):
     cx.only_if(sa, si, Cmp(r"AtomicRevision::load\(\$1\.verified_at\)$", "==", r"current_revision\(\$2\)$"), "iteration state is carried over only within the current revision")
 
 
-@ob("C12.3", ["C12", "C18", "C20"], "reusing a provisional memo whose cycle heads are not final (or were finalised in another iteration/revision) returns an intermediate value as the result", kind="ONLYIF")
+@ob("C12.3", ["C12", "C18", "C20", "C13"], "reusing a provisional memo whose cycle heads are not final (or were finalised in another iteration/revision) returns an intermediate value as the result", kind="ONLYIF")
 def c12_3(cx):
     """validate_provisional returns true only if every cycle head is Final with verified_at == the memo's verified_at and iteration == the recorded iteration (and then marks verified_final); validate_same_iteration returns true only if memo verified_at == current revision and every head is claimed as Cycle with the same verified_at and iteration (single own head: the head is on this thread's stack)."""
     v = cx.fn(r"^function::maybe_changed_after::validate_provisional$")
@@ -214,7 +214,7 @@ def c15_2(cx):
     st = [d for d in m.full_defs_named("iteration")] if hasattr(m, "full_defs_named") else []
 
 
-@ob("C12.5", ["C12", "C18", "C01"], "a cycle query whose stored origin misses a leaf dependency of a provisional callee (or keeps the provisional callee itself) is later validated against the wrong inputs: a stale fixpoint result is reused", kind="MUSTCALL+TABLE (flattening visits every edge; sibling impls)")
+@ob("C12.5", ["C12", "C18", "C01", "C13"], "a cycle query whose stored origin misses a leaf dependency of a provisional callee (or keeps the provisional callee itself) is later validated against the wrong inputs: a stale fixpoint result is reused", kind="MUSTCALL+TABLE (flattening visits every edge; sibling impls)")
 def c12_5(cx):
     """complete_cycle_query stores flatten(input_outputs) - not the direct edges - as the origin; flatten_cycle_dependencies visits every direct edge (inputs through the owning ingredient's flatten_cycle_head_dependencies with the edge's own key, outputs verbatim); the ingredient impls agree: leaves insert their own input edge, functions delegate with (self, key of id, C::CYCLE_STRATEGY); the function walker returns without contributing only for a missing memo or an already visited key, inserts the key itself iff the memo is final, copies every input of cycle-handling callees and recurses into every input of plain callees."""
     c = cx.fn(EXE + r"complete_cycle_query$")
@@ -319,7 +319,7 @@ def c12_5(cx):
     cx.check(not bad, "the walker returns without recording the callee or walking its inputs only if there is no memo or the key was already visited", own, {"exits": bad} if bad else None, key="walker-exits")
 
 
-@ob("C12.1", ["C12", "C15", "C20"], "a cycle seeded with anything but cycle_initial, or with a stamp that claims finality / a non-minimal changed_at or durability, makes the iteration start above the bottom element (not the least fixpoint) or lets readers trust the seed", kind="FLOW")
+@ob("C12.1", ["C12", "C15", "C20", "C13"], "a cycle seeded with anything but cycle_initial, or with a stamp that claims finality / a non-minimal changed_at or durability, makes the iteration start above the bottom element (not the least fixpoint) or lets readers trust the seed", kind="FLOW")
 def c12_1(cx):
     """fetch_cold_cycle's only insert: Memo::new(Some(C::cycle_initial(db, id, C::id_to_input(zalsa, id))), zalsa.current_revision(), QueryRevisions::fixpoint_initial(key, iteration)); fixpoint_initial = {changed_at: Revision::start(), durability: MAX, origin: derived(no edges, extra{cycle_heads: CycleHeads::initial(key, iteration), iteration, ..}), verified_final: false}; CycleHeads::initial = [CycleHead{key, iteration, removed: false}]; IterationStamp::initial(c) = new(0, c)."""
     c = cx.fn(r"^function::fetch::<impl function::IngredientImpl<C>>::fetch_cold_cycle$")
